@@ -73,6 +73,21 @@ CHECKS.update({
    note=SCHED_NOTE),
 })
 
+CHECKS.update({
+ "C16": dict(engine="E-seq + E-buf differential", cat="exploration", ref="DESIGN.md §5 C16",
+   technique="deterministic simulation, differential across configurations: each generated program (concrete operation journal) is replayed op-for-op under allocator parity {even,odd,mixed} x realloc {move,in-place} x profile {debug,release} x features {std,no-std,extra-platforms}; per-step outcome digests and oracle verdicts must be identical",
+   text="Programs are generated once in the reference configuration (debug, std) including out-of-contract arguments, then replayed in 15 other E-seq configurations and 2 other E-buf configurations; digests contain operation outcome (ok/panic), returned booleans, and per handle len/capacity/content hash/is_unique, never addresses. Sees debug-panics/release-wraps divergences, even/odd vtable differences, cfg(feature) differences.",
+   note=SEQ_NOTE + " no-std builds exist for E-seq only (E-buf's harness needs std::io)."),
+ "C17": dict(engine="E-buf byzantine mode + E-miri subset", cat="fault_enumeration", ref="DESIGN.md §5 C17",
+   technique="deterministic simulation with fault injection into caller-supplied safe trait objects: LyingBuf/LyingIter/LyingOwner follow a seeded fault schedule (method, call number -> lie or panic), stratified over (consumer, lie kind, call index); oracles: allocator ledger, red zones, guard frames, leak check, worker crash; Miri interprets a subset to see out-of-bounds reads",
+   text="22 consumer entry points x 17 lie kinds x call indices 1..8, plus sampled multi-lie schedules; wrong data and panics are accepted, memory-safety observations are not. Native runs in debug and release; ~1500 cases per quick run under Miri.",
+   note=BUF_NOTE + " Out-of-bounds reads are only visible to the Miri subset (and to a native crash)."),
+ "C18": dict(engine="E-seq long-history mode", cat="exploration", ref="DESIGN.md §5 C18",
+   technique="deterministic simulation over long histories: balanced periodic refill/consume patterns on one recycling BytesMut for up to 10^5 (quick) / 10^6 (thorough) rounds under the counting allocator; adaptive warm-up N, then 100*N rounds: peak live bytes must not rise, no byte-buffer allocation inside refill calls when every split-off part was dropped, sole-empty-handle reserve never allocates; calibrated loose bound as back-stop",
+   text="Because the input is periodic and balanced, a correct implementation is eventually periodic, so the no-rise / no-allocation rules are exact after warm-up. Warm-up is measured in front-consumed bytes (8x the largest capacity + retained bytes without the peak rising).",
+   note=SEQ_NOTE + " Patterns that do not settle within the round limit (a few %) are only reported on a clear upward trend or beyond 8x the calibrated bound."),
+})
+
 NOT_YET = {
  "C05": "not yet claimed: E-sched (shuttle) check under construction",
  "C06": "not yet claimed: E-miri / HB-ledger check under construction",
